@@ -28,13 +28,14 @@ def workers():
 
 
 def mc_algebra(ck, tier):
-    runs = [dict(P=5, NEQ=2, Variants=3), dict(P=3, NEQ=3, Variants=1)] if tier == "quick" else \
-           [dict(P=5, NEQ=2, Variants=4), dict(P=7, NEQ=2, Variants=3), dict(P=11, NEQ=2, Variants=1), dict(P=3, NEQ=3, Variants=3)]
+    runs = [dict(P=5, NEQ=2, Variants=3, NShapes=4), dict(P=3, NEQ=3, Variants=1, NShapes=2)] if tier == "quick" else \
+           [dict(P=5, NEQ=2, Variants=4, NShapes=4), dict(P=7, NEQ=2, Variants=3, NShapes=4), dict(P=11, NEQ=2, Variants=1, NShapes=4),
+            dict(P=3, NEQ=3, Variants=3, NShapes=4)]
     tot = dict(states=0, trans=0)
     vac = {}
     for i, r in enumerate(runs):
         cfg = os.path.join(ck.work, "alg%d.cfg" % i)
-        open(cfg, "w").write("SPECIFICATION Spec\nCONSTANTS\n  P = %(P)d\n  NEQ = %(NEQ)d\n  Variants = %(Variants)d\n"
+        open(cfg, "w").write("SPECIFICATION Spec\nCONSTANTS\n  P = %(P)d\n  NEQ = %(NEQ)d\n  Variants = %(Variants)d\n  NShapes = %(NShapes)d\n"
                              "INVARIANT Inv_PrimalUK Inv_DualUK Inv_DualSK Inv_Bayes Inv_ColCok Inv_Xvalid Inv_Shortcut\n"
                              "CONSTRAINT Emit\nCHECK_DEADLOCK FALSE\n" % r)
         res = vlib.run_tlc("MC_FastPathsAlgebra", cfg, workers=workers(), timeout=2400)
